@@ -56,7 +56,7 @@ class Gate:
             self.pos += 1
 
 
-def build_multi(shape_sizes, seed=0, coder="lzma2", damaged=(), password=None, incompressible=False, shared_parent=False):
+def build_multi(shape_sizes, seed=0, coder="lzma2", damaged=(), password=None, incompressible=False, shared_parent=False, siblings=False):
     """archive with len(shape_sizes) folders; member (f,i) has pseudo-random content of 1000*size+f bytes.
     Returns raw, names{(f,i): name}, contents, packregions"""
     import random
@@ -71,6 +71,9 @@ def build_multi(shape_sizes, seed=0, coder="lzma2", damaged=(), password=None, i
         for i, s in enumerate(sz, start=1):
             # shared_parent: members of different folders under one directory that has no entry of its own (every worker creates it)
             nm = f"f{f}/m{i}-ü.bin" if not shared_parent else f"shared/sub/f{f}m{i}-ü.bin"
+            if siblings:
+                # members of different folders in one directory whose names differ in the last suffix only (report.txt / report.csv)
+                nm = f"shared/sub/report-ü.f{f}m{i}"
             if incompressible:
                 # a flipped byte ends up in a stored chunk: the decoder cannot notice, only the member's CRC does
                 data = R.randbytes(970 * s) + bytes([f, i])
@@ -143,7 +146,7 @@ def run_case(case):
     os.makedirs(wd, exist_ok=True)
     sizes = case["sizes"]
     raw, names, contents = build_multi(sizes, seed=case.get("seed", 0), coder=case.get("coder", "lzma2"), damaged=case.get("damaged", []),
-                                       incompressible=case.get("incompressible", False), shared_parent=case.get("shared_parent", False))
+                                       incompressible=case.get("incompressible", False), shared_parent=case.get("shared_parent", False), siblings=case.get("siblings", False))
     names_rev = {v: k for k, v in names.items()}
     path = os.path.join(wd, "a.7z")
     with open(path, "wb") as f:
@@ -245,6 +248,37 @@ def run_case(case):
             return orig_dec(self, fp, folder, fq, *a, **kw)
 
         P.Worker.decompress = dec
+    # worker threads meet at the entry of the named Worker methods (k-th call of each thread with the k-th call of the others): windows
+    # of a few bytecodes between one worker's step and another's become certain interleavings
+    o_rz = {}
+    if case.get("rendezvous"):
+        rz_lock, rz_bar, rz_cnt = threading.Lock(), {}, {}
+        rz_parties = case.get("rendezvous_parties", len(sizes))
+
+        def _meet(name):
+            if threading.current_thread() is threading.main_thread():
+                return
+            tid = threading.get_ident()
+            with rz_lock:
+                k = rz_cnt[(name, tid)] = rz_cnt.get((name, tid), 0) + 1
+                b = rz_bar.setdefault((name, k), threading.Barrier(rz_parties))
+            try:
+                b.wait(0.3)
+            except threading.BrokenBarrierError:
+                pass
+
+        def _wrap(name):
+            inner = getattr(P.Worker, name)
+
+            def w(self, *a, **kw):
+                _meet(name)
+                return inner(self, *a, **kw)
+            return inner, w
+
+        for name in case["rendezvous"]:
+            if hasattr(P.Worker, name):
+                o_rz[name], wrapped = _wrap(name)
+                setattr(P.Worker, name, wrapped)
     o_mkdir = os.mkdir
     if case.get("mkdir_rendezvous"):
         # two workers creating the same directory meet inside os.mkdir: the first to arrive waits a moment for a second one
@@ -379,6 +413,8 @@ def run_case(case):
         extra = {"order": gate.order, "enforced": gate.enforced, "second": results[1] if mode == "two" else None}
         return {"trace": trace, "extra": extra}
     finally:
+        for name, inner in o_rz.items():
+            setattr(P.Worker, name, inner)
         P.Worker.extract_single = orig_es
         P.Worker.decompress = orig_dec
         os.chdir(cwd0)
